@@ -585,15 +585,15 @@ COMPONENTS = {
     "C05": {"real": ["transports/obfs4 client or server (framing, packet, Read path)"], "simulated": SIM_COMMON, "stub": ["peer and attacker: sim/ref/obfs4ref"]},
     "C06": {"real": ["transports/obfs4 client or server incl. bridge-line parsing"], "simulated": SIM_COMMON, "stub": ["the other role: independent reference sim/ref/obfs4ref (math/big Elligator 2, own ntor, SipHash OFB, frame and packet codec)"]},
     "C09": {"real": ["transports/obfs4 client and server", "common/probdist", "common/drbg"], "simulated": SIM_COMMON + ["woven engine: statement-level preemption (Reset racing Sample)"], "stub": ["length table oracle: reference DRBG + math/rand Perm/Intn"]},
-    "C10": {"real": ["transports/obfs2, obfs3, obfs4 (both roles)", "transports/scramblesuit client", "transports/meeklite client with net/http", "common/socks5"], "simulated": SIM_COMMON + ["runtime select order (seeded seam)"], "stub": ["chaos peers, ScrambleSuit reference server, HTTP server"]},
+    "C10": {"real": ["transports/obfs2, obfs3, obfs4 (both roles)", "transports/scramblesuit client", "transports/meeklite client with net/http", "common/socks5"], "simulated": SIM_COMMON + ["runtime select order (seeded seam)"], "stub": ["chaos peers, ScrambleSuit reference server, HTTP server; peers that hold the keys but seal malformed packets (obfs4ref, obfsref)"]},
     "C11": {"real": ["common/replayfilter (woven: yields before every statement, sync -> simsync)"], "simulated": ["caller-supplied timestamps", "statement-level scheduling and mutex hand-off order"], "stub": ["reference set model; porcupine v1.3.0 as linearizability checker"]},
     "C13": {"real": ["transports/obfs3 (both roles)", "common/uniformdh"], "simulated": SIM_COMMON + ["extreme private keys through the entropy seam"], "stub": ["reference obfs3/UniformDH peer sim/ref/obfsref"]},
     "C14": {"real": ["transports/obfs2 (both roles)"], "simulated": SIM_COMMON, "stub": ["reference obfs2 peer sim/ref/obfsref"]},
-    "C15": {"real": ["transports/scramblesuit client incl. ticket store"], "simulated": SIM_COMMON + ["file system (simos) under the ticket store"], "stub": ["ScrambleSuit reference server sim/ref/obfsref/ss.go"]},
+    "C15": {"real": ["transports/scramblesuit client incl. ticket store (woven: statement-level preemption, sync -> simsync)"], "simulated": SIM_COMMON + ["file system (simos) under the ticket store", "padding draws steered to range limits (harness.SteeredSource)"], "stub": ["ScrambleSuit reference server sim/ref/obfsref/ss.go"]},
     "C16": {"real": ["transports/meeklite client", "net/http client transport"], "simulated": SIM_COMMON + ["runtime select order (seeded seam)", "woven engine: statement-level preemption in meek.go"], "stub": ["HTTP/1.1 server (http.ReadRequest over simnet)"]},
     "C17": {"real": ["common/socks5 (Handshake, Reply, argument parser)"], "simulated": SIM_COMMON, "stub": ["tor's SOCKS5 client and pt-spec argument encoder (harness)"]},
-    "C18": {"real": ["transports/obfs4 server factory and state file code", "transports/scramblesuit client factory and ticket store"], "simulated": ["file system (simos: kill, torn write, EIO, ENOSPC at every disk step)"] + SIM_COMMON, "stub": ["ScrambleSuit reference server; reference cert parser"]},
-    "C19": {"real": ["obfs4proxy copyLoop", "obfs4proxy termMonitor (wait, onHandlerStart, onHandlerFinish)"], "simulated": SIM_COMMON + ["runtime select order (seeded seam)"], "stub": ["far ends, signals, handlers; signal.Notify, stdin/ppid watchers and main() are not run"]},
+    "C18": {"real": ["transports/obfs4 server factory and state file code", "transports/scramblesuit client factory and ticket store"], "simulated": ["file system (simos: kill, torn write, EIO, ENOSPC at every mutating step; EIO, EACCES at every read)"] + SIM_COMMON, "stub": ["ScrambleSuit reference server; reference cert parser"]},
+    "C19": {"real": ["obfs4proxy copyLoop", "obfs4proxy clientHandler and serverHandler", "obfs4proxy newTermMonitor and termMonitor (wait, onHandlerStart, onHandlerFinish)", "common/socks5"], "simulated": SIM_COMMON + ["runtime select order (seeded seam)", "signals: offered on the monitor's channel by the simulation"], "stub": ["far ends, tor's SOCKS client, transports behind the handlers (stub factories); stdin/ppid watchers, accept loops and main() are not run"]},
 }
 
 
